@@ -72,6 +72,8 @@ def run(ctx: Ctx):
     r12_6(ctx)
     from . import c13
     c13.r13_6(ctx, rule="R12.6")        # the title line is taken as it is (a blank title is a valid title)
+    from ..util import persistent_state
+    persistent_state(ctx, "R12.7", [f_ for f_ in (ctx.repo.func(q_, required=False) for q_ in ('SystemGro.__init__', 'SystemGro.__getitem__', 'SystemGro.__iter__', 'GroFile.seek_atom', 'GroFile.readline')) if f_ is not None], "the coordinate-file view")
 
 
 def r12_6(ctx: Ctx, rule="R12.6"):
